@@ -161,6 +161,8 @@ def summarize_op(f):
         return None, ["return value is not a single vector: %s" % [show(x, f) for x in rets]], atoms
     ret0 = rets.pop()
     rl = ret_locals.pop()
+    if ret0[0] in ("local", "havoc") and ret0[1] != rl:
+        rl = ret0[1]  # the vector that is built, when it is handed over through another variable
     in_place = ret0 == ("param", 2) or rl == 2
     inits = set()
     for p in s.paths():
@@ -293,7 +295,8 @@ def summarize_op(f):
 
 def r13_2_3(ctx):
     F = ctx.facts
-    impls = [f for f in F.fn_list if f.trait == TRAIT and f.name == "filter" and not f.root]
+    # the operations are read from their loop: iterator chains are written out first
+    impls = [F.loop_form(f) for f in F.fn_list if f.trait == TRAIT and f.name == "filter" and not f.root]
     summaries = {}
 
     def body2(r):
